@@ -9,8 +9,14 @@ Local Open Scope string_scope.
 Local Open Scope list_scope.
 
 (* ------------------------------------------------------------ decidable equalities *)
+Definition fkind_eqb (a b : fkind) : bool :=
+  match a, b with
+  | KBadConn, KBadConn | KConnDone, KConnDone | KTxDone, KTxDone | KCanceled, KCanceled | KDeadline, KDeadline => true
+  | _, _ => false
+  end.
 Fixpoint err_eqb (a b : err) : bool :=
   match a, b with
+  | EKind k, EKind k' => fkind_eqb k k'
   | EBegin, EBegin | ECommit, ECommit | ERollback, ERollback | EUnavailable, EUnavailable | EOther, EOther => true
   | EExec i, EExec j | EBody i, EBody j | EPanic i, EPanic j => Nat.eqb i j
   | EJoin e r, EJoin e' r' => err_eqb e e' && err_eqb r r'
@@ -43,34 +49,68 @@ Definition status_eqb (a b : result unit) : bool :=
 Definition is_terminal (c : call) : bool := match c with Commit _ | Rollback _ => true | _ => false end.
 Definition terminals (cs : list call) : list call := filter is_terminal cs.
 
-(* Observed: result `res`, driver calls `calls`, a panic that escaped Transact (`escaped`).
-   begin fails      : no Commit/Rollback, result non-nil
+(* what the body does when every failing statement reports its error to the body (the presupposition
+   of "returns the function's error"): the statements it issues and how it ends - independent of the
+   logging switches *)
+Fixpoint spec_stmts (i : nat) (ss : list stmt) (final : outcome) : outcome * list call :=
+  match ss with
+  | [] => (final, [])
+  | s :: r =>
+      if s_fail s then
+        match s_react s with
+        | RReturn => (OErr (err_at (EExec i) (s_fault s)), [Exec i false])
+        | RPanic p => (OPanic p, [Exec i false])
+        | RIgnore => let (o, cs) := spec_stmts (S i) r final in (o, Exec i false :: cs)
+        end
+      else let (o, cs) := spec_stmts (S i) r final in (o, Exec i true :: cs)
+  end.
+Definition spec_body (b : body) : outcome * list call := spec_stmts 0 (b_stmts b) (b_final b).
+
+(* failed Begin attempts (database/sql retries a bad connection) come first *)
+Fixpoint strip_begin_fails (cs : list call) : list call :=
+  match cs with Begin false :: r => strip_begin_fails r | _ => cs end.
+
+(* Observed: result `res`, driver calls `calls`, a panic that escaped Transact (`escaped`), how many
+   times the body was entered (`runs`). With begun := "a Begin succeeded":
+   not begun        : only failed Begin attempts, body never entered, result non-nil
+   begun            : exactly one successful Begin, the body is entered exactly ONCE, and
    body returns nil : ... Commit, nothing after; result = the commit's own error (nil if none)
    body returns e   : ... Rollback, nothing after; result = e (or e joined with the rollback's error
                       when the rollback itself failed)
    body panics p    : ... Rollback, nothing after; result non-nil or the panic p reaches the caller *)
-Definition tx_allowed (f : faults) (b : body) (res : option err) (calls : list call) (escaped : option nat) : bool :=
-  let (o, execs) := run_body b in
+Definition tx_allowed (f : faults) (b : body) (res : option err) (calls : list call) (escaped : option nat)
+           (runs : nat) : bool :=
+  let (o, execs) := spec_body b in
   if f_begin f then
-    match terminals calls, res, escaped with [], Some _, None => true | _, _, _ => false end
+    match strip_begin_fails calls, res, escaped, runs with [], Some _, None, O => true | _, _, _, _ => false end
   else
+    Nat.eqb runs 1 &&
     match o with
     | ONil =>
-        list_eqb call_eqb calls (Begin true :: execs ++ [Commit (negb (f_commit f))]) &&
-        option_eqb err_eqb res (if f_commit f then Some ECommit else None) &&
+        list_eqb call_eqb (strip_begin_fails calls) (Begin true :: execs ++ [Commit (negb (f_commit f))]) &&
+        option_eqb err_eqb res (if f_commit f then Some (e_commit f) else None) &&
         match escaped with None => true | _ => false end
     | OErr e =>
-        list_eqb call_eqb calls (Begin true :: execs ++ [Rollback (negb (f_rollback f))]) &&
-        (option_eqb err_eqb res (Some e) || (f_rollback f && option_eqb err_eqb res (Some (EJoin e ERollback)))) &&
+        list_eqb call_eqb (strip_begin_fails calls) (Begin true :: execs ++ [Rollback (negb (f_rollback f))]) &&
+        (option_eqb err_eqb res (Some e) || (f_rollback f && option_eqb err_eqb res (Some (EJoin e (e_rollback f))))) &&
         match escaped with None => true | _ => false end
     | OPanic p =>
-        list_eqb call_eqb calls (Begin true :: execs ++ [Rollback (negb (f_rollback f))]) &&
+        list_eqb call_eqb (strip_begin_fails calls) (Begin true :: execs ++ [Rollback (negb (f_rollback f))]) &&
         match escaped, res with
         | Some q, _ => Nat.eqb p q
         | None, Some _ => true
         | None, None => false
         end
     end.
+
+(* every statement that reached the driver and failed was seen by the body as a non-nil error
+   (seen: per issued statement, did the body get an error), whatever the log switches *)
+Fixpoint seen_ok (calls : list call) (seen : list bool) : bool :=
+  match calls with
+  | [] => match seen with [] => true | _ => false end
+  | Exec _ ok :: r => match seen with s :: seen' => Bool.eqb s (negb ok) && seen_ok r seen' | [] => false end
+  | _ :: r => seen_ok r seen
+  end.
 
 (* ------------------------------------------------------------ (2) rows -> destination *)
 Definition tag_name (f : field) : string :=
